@@ -342,7 +342,7 @@ def classify_c03(v, h, text):
         return "skip"
     rh = ("" if rh == "" else dec(rh)) if rh is not None and rh not in ("~",) else None
     path = dec(v.get(h, "raw_path") or "")
-    if scheme and not re.match(r"^[a-z][a-z0-9+.\-]*\Z", scheme):
+    if scheme and not re.match(r"^[A-Za-z][A-Za-z0-9+.\-]*\Z", scheme):      # RFC 3986 schemes are case-insensitive: 'HTTP' is valid
         return "skip"
     if rh is not None and ("[" in rh or "]" in rh):
         return "malformed-brackets"
